@@ -7,6 +7,8 @@ HERE="$(cd "$(dirname "${BASH_SOURCE[0]}")" && pwd)"
 REFS="${1:-$HERE/refactorings}"
 export CROSS_OUT="${CROSS_OUT:-/tmp/gfcross_parts}"; mkdir -p "$CROSS_OUT"
 export CROSS_SAMEFILE="${CROSS_SAMEFILE:-0}"
+# CROSS_SEEDS: glob of seed directories to apply (default: all of seeded/)
+export CROSS_SEEDS
 export GOPROXY=off GOSUMDB=off GOTOOLCHAIN=local GOFLAGS=-mod=mod; unset GOWORK
 one() {
   R="$1"; HERE="$2"
@@ -19,7 +21,7 @@ one() {
   git add -A >/dev/null 2>&1; git -c user.email=a@b -c user.name=x commit -qm r >/dev/null 2>&1
   rfiles=$(grep '^+++ b/' $R/patch.diff | sed 's/^+++ b\///' | sort -u)
   : > $W/res.txt
-  for M in $HERE/seeded/*/; do
+  for M in ${CROSS_SEEDS:-$HERE/seeded/*/}; do
     id=$(basename $M); p=${id%%-*}
     if [ "$CROSS_SAMEFILE" = 1 ]; then
       share=0
